@@ -1,6 +1,7 @@
 package main
 
 import (
+	"fmt"
 	"sort"
 	"strings"
 
@@ -180,6 +181,62 @@ func checkC19(r *Run) {
 			}
 		}
 	}
+	// R2b: the live object never escapes: every use of a value obtained from wallets.get is a nil test, a
+	// read-only method call on it, or it is handed to a function of the reviewed table
+	escOK := map[string]string{}
+	nGet := 0
+	for _, fn := range r.P.ModFns {
+		if !strings.HasPrefix(FnName(fn), "wallet.") {
+			continue
+		}
+		ff := r.P.Facts(fn)
+		for _, b := range fn.Blocks {
+			for _, in := range b.Instrs {
+				src, ok := in.(*ssa.Call)
+				if !ok || calleeName(&src.Call) != "wallet.Wallets.get" {
+					continue
+				}
+				nGet++
+				seen := map[ssa.Value]bool{}
+				var visit func(v ssa.Value)
+				visit = func(v ssa.Value) {
+					if seen[v] || v.Referrers() == nil {
+						return
+					}
+					seen[v] = true
+					for _, rf := range *v.Referrers() {
+						switch x := rf.(type) {
+						case *ssa.BinOp:
+							// nil comparison
+						case *ssa.Phi:
+							visit(x)
+						case *ssa.MakeInterface:
+							visit(x)
+						case *ssa.ChangeInterface:
+							visit(x)
+						case *ssa.DebugRef:
+						case *ssa.Return:
+							// returning the live object: only the unexported accessor getWallet-style helpers may, and they must clone
+							r.Check("C19-R2", FnName(fn)+": the live wallet object is not returned to callers", r.P.Pos(x.Pos()), false, "returns the shared in-memory wallet instead of a clone")
+						case ssa.CallInstruction:
+							cc := x.Common()
+							if cc.IsInvoke() && cc.Value == v {
+								r.Check("C19-R2", FnName(fn)+": "+cc.Method.Name()+" on the live wallet is read-only", r.P.Pos(x.Pos()), readOnly[cc.Method.Name()], "mutating the shared in-memory wallet without saving it makes memory and disk disagree")
+								continue
+							}
+							key := FnName(fn) + " -> " + calleeName(cc)
+							_, okk := escOK[key]
+							r.Check("C19-R2", key+": the live wallet object is not handed to other code", r.P.Pos(x.Pos()), okk, "the value from wallets.get (not a clone) is passed on: "+trunc(ff.Term(v), 80))
+						default:
+							r.Check("C19-R2", FnName(fn)+": use of the live wallet object is a nil test or a read-only call", r.P.Pos(rf.Pos()), false, fmt.Sprintf("%T", rf))
+						}
+					}
+				}
+				visit(src)
+			}
+		}
+	}
+	r.Check("C19-R2", "wallets.get call sites scanned", "", nGet >= 3, fmt.Sprint(nGet))
 	// R5 locks
 	res := r.P.lockDiscipline("wallet", "Service", []string{"wallets", "fingerprints"}, "sync.RWMutex.Lock|sync.RWMutex.RLock", "sync.RWMutex.Unlock|sync.RWMutex.RUnlock")
 	sort.Slice(res, func(i, j int) bool { return FnName(res[i].Fn) < FnName(res[j].Fn) })
